@@ -144,7 +144,7 @@ def run_programs(ctx, rp, tag, states):
             f.write("END\n")
             nsteps += len(s["ev"])
     shape_stats(ctx, states)
-    rc, out = vlib.run_cmd([rp], stdin_path=script, timeout=3000)
+    rc, out = vlib.run_cmd([rp], stdin_path=script, timeout=600 if ctx.quick else 2400)
     pr = parse_replay_output(out)
 
     def program_of(txt, sid):
